@@ -162,6 +162,14 @@ bool weak_run();       // W > 0
 // reach probes ("this rare condition was hit"); id < 64, name registered once
 void probe(int id);
 void probe_name(int id, const char* name);
+// function reach probes: count the runs in which a function whose mangled symbol name contains every '&'-separated
+// part of `pattern` was on the stack of a simulated thread at one of its scheduling points (fn_probe), or in which
+// such a function was on the stack of one live simulated thread while a function matching patternB was on the stack
+// of another one (fn_pair_probe: "A overlaps B"). Evaluated in a quarter of the runs; a pattern that matches no
+// function of the binary is reported in the statistics as "<name> (UNRESOLVED)".
+// optional: a probe whose pattern matches nothing in this binary is dropped silently (shared probe sets).
+void fn_probe(const char* name, const char* pattern, bool optional = false);
+void fn_pair_probe(const char* name, const char* patternA, const char* patternB, bool optional = false);
 // type-stable memory (lock_free_ref_count): mark payload bytes dead / alive for the lifetime monitor
 void mem_dead(const void* p, size_t n);
 void mem_alive(const void* p, size_t n);
